@@ -216,3 +216,13 @@ Theorem C09_wheel_fire_window : forall t phi, (0 < phi <= t)%N ->
   (T - T / c_rtimer_accuracy < fire /\ fire <= T)%N.
 Proof. exact TimeWheelProofs.fire_time_window. Qed.
 Print Assumptions C09_wheel_fire_window.
+
+(* rtimer.After unlocks the table of wheels on every path, also when it panics (durations below the accuracy, e.g. the
+   read timeout 0, always do: AdapterProxy.Recv recovers that panic and later calls still need After) *)
+Theorem C09_wheel_after_unlocks : forall T w, snd (rt_after_full T w) = false.
+Proof. exact TimeWheelProofs.rt_after_unlocks. Qed.
+Print Assumptions C09_wheel_after_unlocks.
+
+Theorem C09_wheel_tiny_panics : forall T, (T < c_rtimer_accuracy)%N -> rt_panics T = true.
+Proof. exact TimeWheelProofs.rt_after_tiny_panics. Qed.
+Print Assumptions C09_wheel_tiny_panics.
